@@ -138,6 +138,10 @@ pub fn check(c: &Case3, st: &mut Stats, p: &Paths, budget: usize) -> CheckResult
             st.trouble("wall-clock watchdog fired on `hyeong run -O0`");
             return Ok(());
         }
+        if cli.raw.wall > Duration::from_millis(2000) {
+            st.exclude("interpreter slower than 2 s on this case (no fixed CPU limit can judge the executable)");
+            return Ok(());
+        }
         let want0 = match m.end {
             End::Normal | End::Stop(Stop::Exit(0)) => 0,
             _ => 1,
